@@ -185,8 +185,78 @@ func origins(v ssa.Value) []ssa.Value {
 			}
 		case *ssa.IndexAddr:
 			walk(x.X)
+		case *ssa.UnOp:
+			// load of a local variable (named result, spilled local): the values stored into it
+			if a, ok := x.X.(*ssa.Alloc); ok && x.Op == token.MUL {
+				n := 0
+				for _, rf := range refs(a) {
+					if st, ok := rf.(*ssa.Store); ok && st.Addr == ssa.Value(a) {
+						walk(st.Val)
+						n++
+					}
+				}
+				if n == 0 {
+					out = append(out, v)
+				}
+				return
+			}
+			out = append(out, v)
 		default:
 			out = append(out, v)
+		}
+	}
+	walk(v)
+	return out
+}
+
+// paramDeps returns the parameters (and free variables) that v transitively depends on,
+// following every operand and the stores into local allocations (varargs arrays, locals).
+func paramDeps(v ssa.Value) map[string]bool {
+	out := map[string]bool{}
+	seen := map[ssa.Value]bool{}
+	var walk func(v ssa.Value)
+	walk = func(v ssa.Value) {
+		if v == nil || seen[v] {
+			return
+		}
+		seen[v] = true
+		switch x := v.(type) {
+		case *ssa.Parameter:
+			out[x.Name()] = true
+			return
+		case *ssa.FreeVar:
+			out[x.Name()] = true
+			return
+		case *ssa.Alloc:
+			for _, rf := range refs(x) {
+				switch y := rf.(type) {
+				case *ssa.Store:
+					if y.Addr == ssa.Value(x) {
+						walk(y.Val)
+					}
+				case *ssa.IndexAddr:
+					for _, r2 := range refs(y) {
+						if st, ok := r2.(*ssa.Store); ok && st.Addr == ssa.Value(y) {
+							walk(st.Val)
+						}
+					}
+				case *ssa.FieldAddr:
+					for _, r2 := range refs(y) {
+						if st, ok := r2.(*ssa.Store); ok && st.Addr == ssa.Value(y) {
+							walk(st.Val)
+						}
+					}
+				}
+			}
+			return
+		}
+		if in, ok := v.(ssa.Instruction); ok {
+			var ops []*ssa.Value
+			for _, o := range in.Operands(ops) {
+				if o != nil && *o != nil {
+					walk(*o)
+				}
+			}
 		}
 	}
 	walk(v)
